@@ -168,9 +168,13 @@ func (x *wireExec) exchangeDial(cs *Case, wit interface{}) {
 			outcome = "closed-by-node"
 		} else {
 			outcome = "node-waits"
-			if atomic.LoadInt32(&sv.conn.readArmed) == 0 {
+			if waitsUnbounded(sv, &nodeClosed) {
 				// nothing bounds this read; in production it is DialManager's only loop that sits here
 				x.s.Stat(surface+"_node_waits_without_read_deadline", 1)
+				x.s.Violation("C15/node-unresponsive:"+surface+":waits-for-remote-without-read-deadline",
+					"the listener went silent and the dialling node waits for it in a read with no deadline armed: the only dialling goroutine is held for as long as the remote likes", wit)
+			} else {
+				x.s.Stat(surface+"_node_waits_under_a_read_deadline", 1)
 			}
 		}
 	default:
